@@ -868,12 +868,12 @@ def compare(form: str, defn: dict, inst: dict, exp: dict, obs: dict, case: dict)
     # K4 constructor
     if is_reject(obs["ctor"]):
         omitted = [dflt[n] for n in names[given:]]
-        fail("K4", default_site(omitted[0]) if omitted else "ctor-raises",
+        fail("K4", default_site(omitted[0]) if omitted and form not in ("interp", "twin") else "ctor-raises",
              f"constructor with {inst['npos']} positional, {given - min(inst['npos'], given)} keyword, "
              f"{inst['omit']} defaulted arguments raises {obs['ctor'][1]}")
     if obs["ctor"] != exp["ctor"]:
         i = first_diff_name(exp["ctor"], obs["ctor"])
-        what = default_site(dflt[names[i]]) if i >= given else "argument"
+        what = default_site(dflt[names[i]]) if i >= given and form not in ("interp", "twin") else "argument"
         fail("K4", what, f"after construction field {names[i]!r} is {obs['ctor'][1][i][1]!r}, the definition says "
                          f"{exp['ctor'][1][i][1]!r}")
     # K5 to_pack_list
@@ -997,7 +997,7 @@ def build_forms(defn: dict, kinds: tuple, case: dict) -> dict:
         except HarnessError:
             raise
         except Exception as e:
-            if kind in ("interp", "twin", "shipped"):
+            if kind in ("twin", "shipped"):
                 raise
             # an inner definition that cannot be created on its own is the smaller case
             for f in defn["fields"]:
@@ -1005,7 +1005,7 @@ def build_forms(defn: dict, kinds: tuple, case: dict) -> dict:
                 if inner is not None:
                     build_forms(inner, (kind,), {"defn": strip(inner), "inst": None})
             what, msg_extra = "build", ""
-            if defn.get("defaults") and not defn.get("lib"):
+            if defn.get("defaults") and not defn.get("lib") and kind != "interp":
                 # which default is responsible? keep one at a time, the others become 0
                 dflt = default_values(defn, mk_model)
                 for i, (n, _j) in enumerate(defn["defaults"]):
